@@ -299,5 +299,25 @@ func NewRawPeer(s *Switch, ip string, port uint16, key *ecdsa.PrivateKey) (*RawP
 	return &RawPeer{D5: d5, LN: ln, Key: key, Addr: ap}, nil
 }
 
+// NewRawPeerNoIP: a discv5 endpoint whose record carries no ip / udp entries (a node that does not know its own
+// address yet); peers reach it through the source address of its packets only.
+func NewRawPeerNoIP(s *Switch, ip string, port uint16, key *ecdsa.PrivateKey) (*RawPeer, error) {
+	ap := netip.AddrPortFrom(netip.MustParseAddr(ip), port)
+	conn := s.Listen(ap)
+	if key == nil {
+		key, _ = crypto.GenerateKey()
+	}
+	db, err := enode.OpenDB("")
+	if err != nil {
+		return nil, err
+	}
+	ln := enode.NewLocalNode(db, key)
+	d5, err := discover.ListenV5(conn, ln, discover.Config{PrivateKey: key})
+	if err != nil {
+		return nil, err
+	}
+	return &RawPeer{D5: d5, LN: ln, Key: key, Addr: ap}, nil
+}
+
 func (r *RawPeer) Self() *enode.Node { return r.LN.Node() }
 func (r *RawPeer) Close()            { r.D5.Close() }
